@@ -350,6 +350,18 @@ def case_view_history(ctx, r, B):
                 ctx.fail('property', site, 'in a history with views and conversions', f'after {call}: data holds {Pd.nz()}, expected {ref.P.nz()}',
                          repro=repro(expected_state_src()))
                 return
+            # the split itself: the model's iter_safe_relabels (Lean: iter_safe_relabels_split_is_safe) against dimod's, sub-mapping for sub-mapping
+            subs_real = '|'.join((','.join(f'{lab(a_)}>{lab(b_)}' for a_, b_ in sub.items()) or '.') for sub in dimod.utilities.iter_safe_relabels(mp, cur))
+            B.add(f'saferelabels {labs(cur)} ' + ','.join(f'{lab(a_)}>{lab(b_)}' for a_, b_ in mp.items()), 'ok ' + subs_real,
+                  'utilities.iter_safe_relabels', 'swap' if set(mp) == set(mp.values()) else 'fresh labels', f'iter_safe_relabels({mp!r}, {cur!r})')
+            ctx.tick('iter_safe_relabels vs model')
+            if r.random() < .5:
+                # the whole call in the model: it splits the mapping itself and applies every pair
+                lines.append(f'lb {ref.vt} relabelmap ' + ','.join(f'{lab(a_)}>{lab(b_)}' for a_, b_ in mp.items()))
+                expects.append('ok ' + state_line(m))
+                metas.append((site, 'whole mapping in the model'))
+                ctx.tick(site + ' (model splits the mapping)')
+                continue
             for j_, (a_, b_) in enumerate(steps):
                 lines.append(f'lb {ref.vt} relabel {lab(a_)} {lab(b_)}')
                 expects.append('ok ' + state_line(m) if j_ == len(steps) - 1 else None)
@@ -935,6 +947,226 @@ def parse_terms(g):
     return d
 
 
+# ------------------------------------------------------------------------------------------ D'. histories on ONE polynomial object (round 7)
+
+def gp_of_poly(p):
+    return GP({tuple(t): b for t, b in p.items()})
+
+
+def gp_vars(G):
+    out = []
+    for k in G.t:
+        for v in k:
+            if v not in out:
+                out.append(v)
+    return out
+
+
+def case_poly_history(ctx, r, B):
+    """The conversions of a BinaryPolynomial are evaluated ALONG A HISTORY on one object: convert, edit the polynomial a conversion
+    handed out (scale / item assignment / deletion / relabel, all in place), edit the source, convert the SAME source again (with
+    and without copy=True, to_binary / to_spin / to_hubo / to_hising).  Every polynomial in play carries its own independent
+    reference (generic polynomial, Fractions); every conversion of every object must carry the energies of that object's reference
+    at the moment of the call — whatever was converted, handed out or edited before."""
+    R = Recipe()
+    vt = r.choice(['SPIN', 'BINARY'])
+    n = r.choice([1, 2, 3, 3, 4])
+    labels = r.sample(LABELS, n)
+    terms = {}
+    for _ in range(r.choice([1, 2, 3, 5])):
+        t = tuple(r.sample(labels, min(r.choice([0, 1, 2, 2, 3, 4]), n)))
+        if not any(set(t) == set(k) for k in terms):
+            terms[t] = q8(r)
+    R.do(f'p0 = BinaryPolynomial({terms!r}, {vt!r})')
+    pool = {'p0': [gp_of_poly(R['p0']), vt]}      # name -> [reference, vartype]
+    fresh = [l for l in LABELS if l not in labels] + ['zz', 'yy', 'xx']
+    counter = [0]
+    hist = []
+    converted = {}
+
+    def alias_of(obj):
+        for nm in pool:
+            if R[nm] is obj:
+                return nm
+        return None
+
+    def whose(src):
+        return 'the source' if src == 'p0' else 'a handed-out polynomial'
+
+    def check_conversion(src, call, result_vt, value_of):
+        """`value_of(new_sample)` = energy the conversion result assigns; must equal the source's reference at the old sample"""
+        G, svt = pool[src]
+        vs = gp_vars(G)
+        meth = call.split('(')[0]
+        site = 'BinaryPolynomial.' + meth
+        ic = f'{svt}->{result_vt}; ' + ('first conversion of the object' if not converted.get(src) else
+                                       'conversion repeated on one object after ' + (', '.join(sorted(set(hist))) or 'no edit'))
+        ctx.tick(site + (' (repeated on one object)' if converted.get(src) else ' (first)'))
+        ctx.case((site, tuple(R.lines[4:])), nontrivial=bool(G.nz()))
+        conv_src = 'a' if svt == result_vt else '(a + 1) // 2' if result_vt == 'BINARY' else '2 * a - 1'
+        repro = R.script('\n'.join([
+            '# the last line above is the conversion under test; `ref` = the terms the converted polynomial had just before the call',
+            'import itertools, math',
+            f'ref = {dict(G.nz())!r}',
+            f'vs = {vs!r}',
+            f'res = {meth!r}',
+            f'for vals in itertools.product({domain(svt)!r}, repeat=len(vs)):',
+            '    old = dict(zip(vs, vals))',
+            f'    new = {{v: {conv_src} for v, a in old.items()}}',
+            '    want = sum(Fraction(c) * math.prod(old[v] for v in k) for k, c in ref.items())',
+            '    if res in ("to_binary", "to_spin"):',
+            '        got = poly_sum(out, {**{v: 0 for v in out.variables}, **new})',
+            '    elif res == "to_hubo":',
+            '        got = F(out[1]) + sum(F(b) * math.prod(new[v] for v in t) for t, b in out[0].items())',
+            '    else:',
+            '        got = F(out[2]) + sum(F(b) * new[v] for v, b in out[0].items()) + sum(F(b) * math.prod(new[v] for v in t) for t, b in out[1].items())',
+            '    assert got == want, (old, got, want)', '']))
+        for old in all_samples(vs, svt):
+            new = {v: (a if svt == result_vt else (a + 1) // 2 if result_vt == 'BINARY' else 2 * a - 1) for v, a in old.items()}
+            try:
+                got = value_of(new)
+            except KeyError as e:
+                got = f'KeyError {e}'
+            if got != G.eval(old):
+                ctx.fail('property', site, ic, f'{src}.{call}: at {old} the converted polynomial has energy {G.eval(old)}, the result gives {got}; '
+                         f'history: {R.lines[5:]}', repro=repro, detail=dict(script=R.lines[4:]))
+                return False
+        if gp_of_poly(R[src]).nz() != G.nz():
+            ctx.fail('property', site, ic, f'{src}.{call} changed the polynomial it converts: {gp_of_poly(R[src]).nz()} vs {G.nz()}',
+                     repro=repro, detail=dict(script=R.lines[4:]))
+            return False
+        return True
+
+    for step in range(r.randint(3, 8)):
+        src = r.choice(list(pool))
+        G, svt = pool[src]
+        op = r.choice(['conv', 'conv', 'conv', 'hubo', 'hising', 'scale', 'set', 'del', 'relabel', 'copy'])
+        if op == 'conv':
+            tgt = r.choice(['binary', 'spin'])
+            cp = r.choice(['', '', 'copy=True', 'copy=False'])
+            call = f'to_{tgt}({cp})'
+            R.do(f'out = {src}.{call}')
+            out = R['out']
+            tvt = tgt.upper()
+            gq = gp_of_poly(out)
+            ok = check_conversion(src, call, tvt, lambda new, gq=gq, out=out: gq.eval({**{v: 0 for v in out.variables}, **new}))
+            if ok and out.vartype.name != tvt:
+                ctx.fail('property', 'BinaryPolynomial.to_' + tgt, 'vartype attribute', f'{out.vartype.name}', repro=R.script('assert False\n'))
+                ok = False
+            if not ok:
+                return
+            if svt != tvt and not converted.get(src):
+                # (i) the model of the powerset expansion on the state at the time of the call
+                vs = gp_vars(G)
+                idx = {l: i for i, l in enumerate(vs)}
+                exp = {tuple(sorted(idx[v] for v in t)): F(b) for t, b in out.items()}
+                B.add(f'polyto{tgt} {terms_tok(R[src].items(), idx)}', '', 'BinaryPolynomial.to_' + tgt, 'along a history', 'to_binary/to_spin vs model',
+                      detail=dict(script=R.lines[4:]), on_mismatch=lambda g, exp=exp: parse_terms(g) == exp)
+            converted[src] = True
+            if alias_of(out) is None:
+                counter[0] += 1
+                nm = f'p{counter[0]}'
+                R.do(f'{nm} = out')
+                sub = None if svt == tvt else (TO_BINARY if tvt == 'BINARY' else TO_SPIN)
+                pool[nm] = [G.copy() if sub is None else G.substitute({v: sub for v in gp_vars(G)}), tvt]
+            # an alias (same-vartype call with copy=False returns self, documented) shares its entry
+        elif op in ('hubo', 'hising'):
+            call = 'to_hubo()' if op == 'hubo' else 'to_hising()'
+            R.do(f'out = {src}.{call}')
+            out = R['out']
+
+            def val(new, out=out, op=op):
+                def ev(d):
+                    e = Fraction(0)
+                    for t, b in d.items():
+                        pr = F(b)
+                        for v in t:
+                            pr *= new[v]
+                        e += pr
+                    return e
+                if op == 'hubo':
+                    return F(out[1]) + ev(out[0])
+                return F(out[2]) + sum(F(b) * new[v] for v, b in out[0].items()) + ev(out[1])
+            if not check_conversion(src, call, 'BINARY' if op == 'hubo' else 'SPIN', val):
+                return
+            converted[src] = True
+        elif op == 'scale':
+            c = r.choice([2, -1, 0.5, 4])
+            R.do(f'{src}.scale({c})')
+            for k in G.t:
+                G.t[k] *= F(c)
+            hist.append(f'scale of {whose(src)}')
+        elif op == 'set':
+            vs = gp_vars(G) or labels
+            t = tuple(r.sample(vs, min(len(vs), r.choice([0, 1, 2, 3]))))
+            b = q8(r)
+            R.do(f'{src}[{t!r}] = {fl(b)}')
+            G.set(t, b)
+            hist.append(f'item assignment on {whose(src)}')
+        elif op == 'del' and G.t:
+            k = r.choice(list(G.t))
+            R.do(f'del {src}[{tuple(k)!r}]')
+            del G.t[k]
+            hist.append(f'item deletion on {whose(src)}')
+        elif op == 'relabel' and gp_vars(G) and fresh:
+            old = r.choice(gp_vars(G))
+            new = fresh.pop(0)
+            R.do(f'{src}.relabel_variables({ {old: new}!r})')
+            G2 = GP()
+            for k, c in G.t.items():
+                G2.add(tuple(new if v == old else v for v in k), c)
+            pool[src][0] = G2
+            hist.append(f'relabel of {whose(src)}')
+        elif op == 'copy':
+            counter[0] += 1
+            nm = f'p{counter[0]}'
+            R.do(f'{nm} = {src}.copy()')
+            pool[nm] = [G.copy(), svt]
+        # after every step: no object's coefficients moved unless it was the one edited
+        for nm, (Gn, _) in pool.items():
+            if gp_of_poly(R[nm]).nz() != Gn.nz():
+                ctx.case(('poly-history-alias', tuple(R.lines[4:])), nontrivial=True)
+                ctx.fail('property', 'BinaryPolynomial.to_binary/to_spin', 'polynomial handed out by a conversion shares state with another object',
+                         f'after `{R.lines[-1]}` the polynomial {nm} reads {gp_of_poly(R[nm]).nz()} but nothing edited it since it was {Gn.nz()}; '
+                         f'history: {R.lines[5:]}',
+                         repro=R.script(f'assert {{tuple(sorted(t, key=repr)): F(b) for t, b in {nm}.items() if b}} == {dict(Gn.nz())!r}\n'),
+                         detail=dict(script=R.lines[4:]))
+                return
+
+
+def case_convert_twice(ctx, r, B):
+    """the same for BQMs: `change_vartype(inplace=False)` asked twice on one model, the first result edited in place in between"""
+    R = Recipe()
+    dtype = r.choice(['np.float64', 'np.float32', 'object'])
+    labels, vt = gen_bqm(r, R, dtype=dtype, nmax=4)
+    if not labels:
+        return
+    other = 'BINARY' if vt == 'SPIN' else 'SPIN'
+    m = R['m']
+    sub = TO_BINARY if other == 'BINARY' else TO_SPIN
+    site = f'BQM{"[object]" if dtype == "object" else "[float32]" if dtype == "np.float32" else ""}.change_vartype'
+    R.do(f'a = m.change_vartype({other!r}, inplace=False)')
+    edit = r.choice(['scale', 'add_linear', 'relabel', 'remove_variable', 'offset'])
+    v = r.choice(labels)
+    fresh = next(l for l in LABELS if l not in labels)
+    R.do({'scale': 'a.scale(2)', 'add_linear': f'a.add_linear({v!r}, {fl(q8(r))})', 'relabel': f'a.relabel_variables({ {v: fresh}!r})',
+          'remove_variable': f'a.remove_variable({v!r})', 'offset': 'a.offset += 1'}[edit])
+    R.do(f'b = m.change_vartype({other!r}, inplace=False)')
+    P = GP.of_model(m)
+    expect = P.substitute({x: sub for x in labels})
+    ic = f'{vt}->{other}; second conversion of one model after the first result was edited in place ({edit})'
+    ctx.tick(site + ' (repeated on one object)')
+    ctx.case((site, 'twice', tuple(R.lines[4:])), nontrivial=True)
+    if GP.of_model(R['b']).nz() != expect.nz() or R['b'].vartype.name != other or m.vartype.name != vt:
+        conv = '(x + 1) // 2' if other == 'BINARY' else '2 * x - 1'
+        ctx.fail('property', site, ic, f'second conversion {GP.of_model(R["b"]).nz()} differs from the substituted polynomial {expect.nz()}',
+                 repro=R.script('\n'.join(['import itertools', f'labels = {labels!r}',
+                                           f'for s in itertools.product({domain(vt)!r}, repeat=len(labels)):',
+                                           '    old = dict(zip(labels, s))',
+                                           f'    new = {{v: {conv} for v, x in old.items()}}',
+                                           '    assert poly_value(m, old) == poly_value(b, new), (old, poly_value(m, old), poly_value(b, new))', ''])))
+
+
 def case_poly_h(ctx, r, B):
     """BinaryPolynomial.to_hubo / to_hising (either vartype) and from_hubo / from_hising: dicts + offset carry the energies"""
     R = Recipe()
@@ -1012,12 +1244,42 @@ def case_poly_h(ctx, r, B):
     else:
         hh = {t[0]: b for t, b in terms.items() if len(t) == 1}
         JJ = {t: b for t, b in terms.items() if len(t) >= 2}
+        # keys of J outside "the higher-order terms": `poly.update(J)` / `poly[frozenset([])] = offset` OVERWRITE equal keys.
+        # A tuple `()` is not equal to `frozenset()`, so it survives as its own key and the constructor adds it (the property holds);
+        # a `frozenset()` key is overwritten by the offset and a `(k,)` key overwrites h[k] (Lean: poly_from_hising_energy and the two
+        # witnesses next to it) — these two are compared with the model only, they are the witnesses that the guard is needed.
+        special = r.choice([None, None, None, 'tuple () key in J', 'frozenset() key in J', '(k,) key in J'])
+        overwritten = False
+        Jm = dict(JJ)                     # what the model (canonical keys) receives
+        if special == 'tuple () key in J':
+            JJ[()] = q8(r); Jm = None if off is not None else dict(JJ)
+        elif special == 'frozenset() key in J':
+            JJ[frozenset()] = q8(r); Jm = {tuple(k): b for k, b in JJ.items()}; overwritten = off is not None
+        elif special == '(k,) key in J' and hh:
+            v_ = r.choice(list(hh)); JJ[(v_,)] = q8(r); Jm = dict(JJ); overwritten = True
+        else:
+            special = None
         R.do(f'p = BinaryPolynomial.from_hising({hh!r}, {JJ!r}' + ('' if off is None else f', {off!r}') + ')')
-        src = {**{(v,): b for v, b in hh.items()}, **JJ}
+        src = {**{(v,): b for v, b in hh.items()}}
+        for k_, b_ in JJ.items():
+            src[tuple(k_)] = src.get(tuple(k_), 0) + b_
         dvt = 'SPIN'
-        line = (f'polyfromhising {terms_tok([((v,), b) for v, b in hh.items()], idx)} {terms_tok(JJ.items(), idx)} '
-                f'{"~" if off is None else rat(F(off))}')
-        ic = 'offset given' if off is not None else 'no offset'
+        line = None if Jm is None else (f'polyfromhising {terms_tok([((v,), b) for v, b in hh.items()], idx)} {terms_tok(Jm.items(), idx)} '
+                                        f'{"~" if off is None else rat(F(off))}')
+        ic = ('offset given' if off is not None else 'no offset') + (f'; {special}' if special else '')
+        if special:
+            ctx.tick(f'from_hising: {special}' + (' (overwritten: witness of the guard, model only)' if overwritten else ' (added)'))
+        if overwritten:
+            p = R['p']
+            ctx.case((site, tuple(R.lines[4:])), nontrivial=True)
+            exp = {tuple(sorted(idx[v] for v in t)): F(b) for t, b in p.items()}
+            B.add(line, '', site, ic, which + ' vs model (key overwritten)', detail=dict(script=R.lines[4:]), on_mismatch=lambda g, exp=exp: parse_terms(g) == exp)
+            # the witness itself, on the real code: the energies are NOT h + J + offset here
+            G = GP({tuple(t): b for t, b in p.items()})
+            if all(G.eval(x) == F(0 if off is None else off) + ev_terms(src, x) for x in all_samples(labels, dvt)) and \
+                    any(b_ != 0 for k_, b_ in JJ.items() if len(k_) <= 1):
+                ctx.tick('from_hising: overwritten key did not change the energies (bias coincidence)')
+            return
     p = R['p']
     ctx.case((site, tuple(R.lines[4:])), nontrivial=bool(src))
     repro = R.script(textwrap.dedent(f'''
@@ -1037,7 +1299,8 @@ def case_poly_h(ctx, r, B):
             ctx.fail('property', site, ic, f'at {x}: polynomial {G.eval(x)}, dicts + offset {F(0 if off is None else off) + ev_terms(src, x)}', repro=repro)
             return
     exp = {tuple(sorted(idx[v] for v in t)): F(b) for t, b in p.items()}
-    B.add(line, '', site, ic, which + ' vs model', detail=dict(script=R.lines[4:]), on_mismatch=lambda g, exp=exp: parse_terms(g) == exp)
+    if line is not None:
+        B.add(line, '', site, ic, which + ' vs model', detail=dict(script=R.lines[4:]), on_mismatch=lambda g, exp=exp: parse_terms(g) == exp)
 
 
 def case_ising_qubo(ctx, r, B):
@@ -1218,6 +1481,46 @@ def case_sampleset(ctx, r, B):
         B.add(line, f'{target} {rows_tok(got_rows)} {rats(nss.record.energy)}', site, ic, 'SampleSet.change_vartype vs model', detail=dict(script=src))
 
 
+def case_sampleset_twice(ctx, r, B):
+    """`SampleSet.change_vartype(inplace=False)` asked twice on one sample set, the arrays of the first result edited in place in
+    between (rows, energies, occurrences): the second result must be the conversion of the untouched source, which must still hold
+    its own rows"""
+    n = r.choice([1, 2, 3])
+    labels = r.sample(LABELS, n)
+    vt = r.choice(['SPIN', 'BINARY'])
+    target = 'BINARY' if vt == 'SPIN' else 'SPIN'
+    k = r.randint(1, 3)
+    rows = [[r.choice(domain(vt)) for _ in labels] for _ in range(k)]
+    en = [q8(r) for _ in range(k)]
+    eo = r.choice([0.0, q8(r)])
+    tgt_dom = domain(target)
+    src = (SS_HDR + f'ss = dimod.SampleSet.from_samples(({rows!r}, {labels!r}), {vt!r}, energy={en!r}, sort_labels=False)\n'
+           f'a = ss.change_vartype({target!r}, inplace=False)\n'
+           f'a.record.sample[0, 0] = {tgt_dom[0]} if a.record.sample[0, 0] == {tgt_dom[1]} else {tgt_dom[1]}\n'
+           'a.record.energy[0] += 3\n'
+           + ('a.relabel_variables({%r: "zz"})\n' % (labels[0],) if r.random() < .5 else '')
+           + f'n = ss.change_vartype({target!r}, energy_offset={eo!r}, inplace=False)\n')
+    conv = (lambda s_: (s_ + 1) // 2) if target == 'BINARY' else (lambda x: 2 * x - 1)
+    exp_rows = [[conv(x) for x in row] for row in rows]
+    exp_en = [float(F(e) + F(eo)) for e in en]
+    check = (f'assert n.vartype.name == {target!r} and ss.vartype.name == {vt!r}\n'
+             f'assert list(n.variables) == {labels!r} and list(ss.variables) == {labels!r}\n'
+             f'assert n.record.sample.tolist() == {exp_rows!r}, n.record.sample.tolist()\n'
+             f'assert [float(e) for e in n.record.energy] == {exp_en!r}, list(n.record.energy)\n'
+             f'assert ss.record.sample.tolist() == {rows!r} and [float(e) for e in ss.record.energy] == {[float(e) for e in en]!r}\n')
+    site = 'SampleSet.change_vartype'
+    ic = f'{vt}->{target}; second conversion of one sample set after the arrays of the first result were edited in place'
+    ctx.tick(site + ' (repeated on one object)')
+    ctx.case((site, 'twice', src), nontrivial=True)
+    ns = {}
+    try:
+        exec(src + check, ns)
+    except AssertionError as e:
+        ctx.fail('property', site, ic, f'{e}'[:300], repro=src + check)
+    except Exception as e:  # noqa
+        ctx.fail('property', site, ic, f'{type(e).__name__}: {e}'[:300], repro=src + check)
+
+
 def case_from_dicts(ctx, r, B):
     """BQM.from_ising / from_qubo (constructors) and to_ising / to_qubo incl. offsets, energies at every sample;
     the constructed model is compared with `LBqm.fromIsing` / `LBqm.fromQubo` (`_init_components` as modelled)"""
@@ -1298,7 +1601,8 @@ def run(ctx):
                 'change_vartype, each compared with substitute-edit-substitute back; a case = one conversion or one history step; '
                 'non-trivial = the model has variables / the step went through a view of the other vartype or changed the state')
     for i in range(n):
-        kind = r.choice(['bqm', 'bqmhist', 'bqmhist', 'hist', 'hist', 'hist', 'qm', 'cqm', 'cqm', 'poly', 'polyh', 'dicts', 'ss', 'ss', 'fromdicts'])
+        kind = r.choice(['bqm', 'bqmhist', 'bqmhist', 'hist', 'hist', 'hist', 'qm', 'cqm', 'cqm', 'poly', 'polyh', 'dicts', 'ss', 'ss', 'fromdicts',
+                         'polyhist', 'polyhist', 'twice', 'sstwice'])
         ctx.tick('kind:' + kind)
         if kind == 'bqm':
             case_bqm_convert(ctx, r, B)
@@ -1312,6 +1616,12 @@ def run(ctx):
             case_cqm_change(ctx, r, B)
         elif kind == 'poly':
             case_poly_convert(ctx, r, B)
+        elif kind == 'polyhist':
+            case_poly_history(ctx, r, B)
+        elif kind == 'twice':
+            case_convert_twice(ctx, r, B)
+        elif kind == 'sstwice':
+            case_sampleset_twice(ctx, r, B)
         elif kind == 'polyh':
             case_poly_h(ctx, r, B)
         elif kind == 'dicts':
